@@ -53,6 +53,18 @@ func (s *NegationVisitor) ExitOC_StringListNullPredicateExpression(ctx *parser.O
 	s.Negation.Expression = result
 }
 
+// nestNegations wraps the given negation once for each additional NOT token so that repeated negations, e.g.
+// NOT NOT a, keep their meaning instead of collapsing into a single negation.
+func nestNegations(negation *cypher.Negation, numNegations int) *cypher.Negation {
+	for additional := 1; additional < numNegations; additional++ {
+		negation = &cypher.Negation{
+			Expression: negation,
+		}
+	}
+
+	return negation
+}
+
 type JoiningVisitor struct {
 	BaseVisitor
 
@@ -68,9 +80,9 @@ func (s *JoiningVisitor) EnterOC_NotExpression(ctx *parser.OC_NotExpressionConte
 }
 
 func (s *JoiningVisitor) ExitOC_NotExpression(ctx *parser.OC_NotExpressionContext) {
-	if len(ctx.AllNOT()) > 0 {
+	if numNegations := len(ctx.AllNOT()); numNegations > 0 {
 		visitor := s.ctx.Exit().(*NegationVisitor)
-		s.Joined.Add(visitor.Negation)
+		s.Joined.Add(nestNegations(visitor.Negation, numNegations))
 	}
 }
 
